@@ -30,7 +30,10 @@ def Verdict (m : Meth) (r : Request) (t : TypedVals) (x : Except Stop FState × 
       (x.1 = .error wpe ↔ ¬ SpecHolds m r.n t.num (t.bool .spe_global_strategy == false))) ∧
   (∀ e, x.1 = .error (.threw e) → x.2.kernel = 0 ∧ x.2.distance = 0) ∧
   (DeclaredSupplied m r → (∀ c ∈ callbacksMentioned m, r.has c = true) →
-      x.1 ≠ .error (.threw (errT .unsupported_method_error)))
+      x.1 ≠ .error (.threw (errT .unsupported_method_error))) ∧
+  (∀ e, x.1 = .error (.threw e) →
+      e = errT .no_data_error ∨ e = errS .wrong_parameter_error ∨ e = errT .cancelled_exception ∨
+      e = errT .unsupported_method_error)
 
 macro "front_simp" "[" ts:Lean.Parser.Tactic.simpLemma,* "]" : tactic =>
   `(tactic| simp [afterMerge, frontSteps, runSteps, runStep, findDispatch, dispatch, runDispatchSteps, validate, runChecks,
@@ -103,10 +106,23 @@ theorem verdict_LandmarkMultidimensionalScaling (r : Request) (t : TypedVals) (p
   front_simp [hget, hm]
   split_ifs <;> verdict_leaf
 
+theorem verdict_SPE_local (r : Request) (t : TypedVals) (ps : PSet) (hget : ∀ k, ps.get k = t.get k)
+    (hm : t.meth .method = .StochasticProximityEmbedding) (hg : t.bool .spe_global_strategy = false) :
+    Verdict .StochasticProximityEmbedding r t (afterMerge r ps) := by
+  front_simp [hget, hm, hg]
+  split_ifs <;> verdict_leaf
+
+theorem verdict_SPE_global (r : Request) (t : TypedVals) (ps : PSet) (hget : ∀ k, ps.get k = t.get k)
+    (hm : t.meth .method = .StochasticProximityEmbedding) (hg : t.bool .spe_global_strategy = true) :
+    Verdict .StochasticProximityEmbedding r t (afterMerge r ps) := by
+  front_simp [hget, hm, hg]
+  split_ifs <;> verdict_leaf
+
 theorem verdict_StochasticProximityEmbedding (r : Request) (t : TypedVals) (ps : PSet) (hget : ∀ k, ps.get k = t.get k)
     (hm : t.meth .method = .StochasticProximityEmbedding) : Verdict .StochasticProximityEmbedding r t (afterMerge r ps) := by
-  front_simp [hget, hm]
-  split_ifs <;> verdict_leaf
+  cases hg : t.bool .spe_global_strategy
+  · exact verdict_SPE_local r t ps hget hm hg
+  · exact verdict_SPE_global r t ps hget hm hg
 
 theorem verdict_KernelPrincipalComponentAnalysis (r : Request) (t : TypedVals) (ps : PSet) (hget : ∀ k, ps.get k = t.get k)
     (hm : t.meth .method = .KernelPrincipalComponentAnalysis) : Verdict .KernelPrincipalComponentAnalysis r t (afterMerge r ps) := by
